@@ -61,14 +61,17 @@ impl Crdt for GL {
             }
             Err(_) => "panic".into(),
         };
+        // `get(i)` for every index incl. one past the end (capped): must enumerate exactly the identifiers in order
+        let gets: Vec<String> = (0..=s.len().min(12)).map(|i| opt_ident(s.get(i))).collect();
         format!(
-            "ids=[{}] read={} len={} empty={} first={} last={}",
+            "ids=[{}] read={} len={} empty={} first={} last={} gets=[{}]",
             ids.join(","),
             read,
             s.len(),
             s.is_empty(),
             opt_ident(s.first()),
-            opt_ident(s.last())
+            opt_ident(s.last()),
+            gets.join(",")
         )
     }
     fn validate_op(s: &Self::S, op: &Self::Op) -> String {
@@ -143,8 +146,14 @@ impl Crdt for LS {
         assert_eq!(read, into);
         assert_eq!(read, into2);
         let pe = s.last_entry().and_then(|(i, _)| s.position_entry(i)).map(|n| n.to_string()).unwrap_or("-".into());
+        // `position(i)` for every index incl. one past the end, `position_entry` / `get` of every live identifier (capped)
+        let cap = s.len().min(12);
+        let posall: Vec<String> = (0..=cap).map(|i| opt_nat(s.position(i))).collect();
+        let peall: Vec<String> = s.iter_entries().take(cap).map(|(i, _)| s.position_entry(i).map(|n| n.to_string()).unwrap_or("-".into())).collect();
+        let geall: Vec<String> = s.iter_entries().take(cap).map(|(i, _)| opt_nat(s.get(i))).collect();
+        let tail = format!(" posall=[{}] peall=[{}] geall=[{}]", posall.join(","), peall.join(","), geall.join(","));
         format!(
-            "seq=[{}] clock={} read={} len={} empty={} first={} last={} pos1={} fe={} le={} pe={} ge={}",
+            "seq=[{}] clock={} read={} len={} empty={} first={} last={} pos1={} fe={} le={} pe={} ge={}{tail}",
             seq.join(","),
             tree_clock(to_tree(s).field("clock")),
             nats(read.iter()),
@@ -161,11 +170,14 @@ impl Crdt for LS {
     }
     fn validate_op(s: &Self::S, op: &Self::Op) -> String {
         // `Op::dot()` unwraps the last marker: panics for an insert op carrying the empty identifier
-        match catch_unwind(AssertUnwindSafe(|| s.validate_op(op))) {
+        let verdict: String = match catch_unwind(AssertUnwindSafe(|| s.validate_op(op))) {
             Ok(Ok(())) => "ok".into(),
             Ok(Err(r)) => format!("range:{}:{}:{}", r.actor, r.counter_range.start, r.counter_range.end),
             Err(_) => "panic".into(),
-        }
+        };
+        // the accessors on the op's identifier – which may be a live, a deleted or a not-yet-inserted element
+        let id = op.id();
+        format!("{} pid={} gid={}", verdict, s.position_entry(id).map(|n| n.to_string()).unwrap_or("-".into()), opt_nat(s.get(id)))
     }
     fn eq(a: &Self::S, b: &Self::S) -> Option<bool> {
         Some(a == b)
